@@ -44,6 +44,7 @@ from .c02_norm import normalise
 
 # calls the recognisers below key on (never inlined by the normaliser)
 KEEP_CALLS = {"self._set_steps", "calculate_steps", "eval_range", "load_table", "self.convert_df_to_array"}
+_REPO: list = []             # the tree being translated (for helpers imported from other modules of the package)
 NORM_LOG: list = []          # which normalisations were applied in the last translation (evidence)
 
 
@@ -51,7 +52,13 @@ def _norm(tree: ast.Module, fn: ast.FunctionDef, cls: ast.ClassDef | None = None
     """The function after the behaviour-preserving normalisations of translator/c02_norm.py (helpers of the same module /
     class inlined, single-assignment locals substituted, guard clauses == elif chains, module constants resolved, loops
     over constant tuples unrolled, constant tests folded, ...): the recognisers below read the NORMAL FORM."""
-    out, log = normalise(tree, fn, cls, keep=KEEP_CALLS, abbreviate=abbreviate)
+    try:
+        out, log = normalise(tree, fn, cls, keep=KEEP_CALLS, abbreviate=abbreviate, repo=_REPO[0] if _REPO else None,
+                             mutators=("set_readout",))
+    except RecursionError:
+        raise
+    except Exception as ex:      # noqa: BLE001 -- a defect of the normaliser must not take the check down: read the text as is
+        out, log = fn, [f"NORMALISER FAILED ({type(ex).__name__}: {ex}); function read without normalisation"]
     if log:
         NORM_LOG.append(f"{(cls.name + '.') if cls is not None else ''}{fn.name}: {' '.join(log)}")
     return out
@@ -121,7 +128,7 @@ def _collect(stmts, X: str, S: str, is_commit) -> list[str]:
                     fail(st, "validation after the schedule has been stored")
                 continue
             guards += _guards_of_if(st, X, S)
-        elif isinstance(st, (ast.Assign, ast.AnnAssign, ast.Expr, ast.Pass)):
+        elif isinstance(st, (ast.Assign, ast.AnnAssign, ast.Expr, ast.Pass, ast.Import, ast.ImportFrom)):
             if _contains_raise(st):
                 fail(st, "unexpected raise")
         elif isinstance(st, ast.Raise):
@@ -717,6 +724,7 @@ def extract(repo: Path) -> dict:
     t_det = parse(repo, "pyxel/detectors/detector.py")
 
     NORM_LOG.clear()
+    _REPO[:] = [repo]
     c_ro = _cls_of(t_ro, "Readout")
     g_ndarray, g_ctor = _ctor_guards(_norm(t_ro, find_func(t_ro, "__init__", "Readout"), c_ro))
 
